@@ -372,6 +372,29 @@ let s_sched which g obs =
       | None -> 0 in
     (model, if n_acc <> 1 then "bad:window-join-request-not-answered-once" else Judge.judge_sched "C05" g obs pre eui)
   end else
+  if g "kind" = "window2" && (try g "queue" = "1" with _ -> false) then begin
+    (* shared address, the second device with two queued messages and two uplinks: its data downlinks, in the order of their
+       frame counters, carry its queued messages oldest first, one each; the first device is answered once *)
+    let (model, pre, _post) = Hist.run_window2 g obs in
+    let verdict = match Judge.split_obs obs with
+      | None -> "bad:sched-unreadable-observation"
+      | Some (ds, _, _) ->
+        let raws = List.map (fun dstr -> Util.bytes_of_hex (List.hd (String.split_on_char ':' dstr))) ds in
+        let rows = List.filter_map (fun (_, st) -> st.ds_row) pre.s_tab in
+        let queued eui = List.concat_map (fun (e2, st) -> if e2 = eui then List.map (fun m -> (m.m_port, m.m_data)) st.ds_outbox else []) pre.s_tab in
+        let check r =
+          let got = List.filter_map (fun raw -> match ref_on_downlink e r.d_nwkskey r.d_appskey r.d_addr raw with
+              | Some ((((_, _), fcnt), port), plain) -> Some (Util.int_of_n fcnt, port, plain) | None -> None) raws in
+          let got = List.sort compare got in
+          let carried = List.filter_map (fun (_, port, plain) -> match port with Some p when plain <> [] -> Some (p, plain) | _ -> None) got in
+          let q = queued r.d_eui in
+          let rec prefix a b = match a, b with [], _ -> true | x :: a', y :: b' -> x = y && prefix a' b' | _ -> false in
+          if not (prefix carried q) then "bad:window-queued-messages-not-delivered-oldest-first"
+          else if List.length carried < min (List.length q) (if List.length q >= 2 then 2 else 1) then "bad:window-queued-message-not-delivered-on-its-uplink"
+          else "ok" in
+        (match List.filter (fun v -> v <> "ok") (List.map check rows) with v :: _ -> v | [] -> "ok") in
+    (model, verdict)
+  end else
   if g "kind" = "window2" then begin
     let (model, pre, _post) = Hist.run_window2 g obs in
     (model, Judge.judge_window2 obs pre)
